@@ -354,7 +354,15 @@ def rule_r4(ctx) -> List[R.Inst]:
             # a local bound once reads as its value: `title = enc(src.title)` hoisted out of the chart loop
             vals = [(stmt, t, None if v is None else inline_locals(cv.fn.node, v)) for stmt, t, v in cands]
             hit = [(stmt, t) for stmt, t, v in vals if v is not None and _mentions_src(v, srcvars, sroles[role])]
-            if hit:
+            # the PRIMARY field of the role (the one the target's writer emits as Title / Artist / …: the first of the role's fields)
+            # is the one that must be filled; a transliteration / unicode twin alone leaves the written file without it
+            primary = troles[role][0]
+            if hit and role in ("title", "artist") and len(troles[role]) > 1 and not any(t.attr == primary for _, t in hit) and \
+                    not any(t.attr == primary for _, t, _v in cands):
+                insts.append(R.viol("C08.R4", key, cv.file, hit[0][0].lineno,
+                                    f"only '{hit[0][1].attr}' receives the source's {role}; the target's primary field '{primary}' (what its "
+                                    f"writer emits as the {role}) is never assigned and keeps its default", construct=f"{cv.name}.{cv.fn.name} leaves {primary}"))
+            elif hit:
                 insts.append(R.ok("C08.R4", key, cv.file, hit[0][0].lineno,
                                   idiom=f"{unparse(hit[0][1])} <- source {sroles[role]}"))
             elif cands:
